@@ -51,6 +51,9 @@ def make_scenario(rng: Rng, deep: bool) -> dict:
         if overrun and rng.random() < 0.15:
             # an invocation that runs into its time limit and needs a moment to wind down after being cancelled
             j.update(timeout=1 * S, plan=[{"k": "timeout", "dur": 0, "cleanup": rng.choice([0, 1000, 300_000])}])
+        if rng.random() < 0.12:
+            # a time-to-live that may run out while the message waits — in the queue, or in the runner's hand for a free slot
+            j["ttl"] = rng.choice([1 * S, 1 * S, 2 * S])
         if arrivals == "burst" and i >= n // 2:
             j["at"] = 600_000
         elif arrivals == "trickle":
@@ -117,7 +120,14 @@ def check(run: WorkerRun, model: Model, res: Result, label: str) -> None:
         res.bad("impl", "more than tasks_limit actor invocations in progress", case=case,
                 observed={"max_running": run.max_running, "first": run.over_limit[:1]}, expected=f"<= {L}")
     executed = {e["id"] for e in run.events if e["kind"] == "actor_start"}
-    missing = [j["id"] for j in sc["jobs"] if j["id"] not in executed]
+    # (a message whose time-to-live ran out before it could be executed is dead-lettered instead: accounted for)
+    expired = set()
+    for q in set(sc["actors"].values()):
+        for mid, here in run.msg_params(q).items():
+            if [h["place"] for h in here] == ["dead"]:
+                expired.add(mid)
+    res.dist["expired-before-execution"] += len([j for j in sc["jobs"] if j.get("ttl") and j["id"] in expired and j["id"] not in executed])
+    missing = [j["id"] for j in sc["jobs"] if j["id"] not in executed and not (j.get("ttl") and j["id"] in expired)]
     returned = any(e["kind"] == "run_return" for e in run.events)
     if missing or not returned:
         res.bad("impl", "worker stalled: not every enqueued job was executed within the virtual-time bound", case=case,
@@ -129,6 +139,16 @@ def run(ctx) -> Result:
     res = Result("C09")
     model = Model()
     deep = tier == "thorough" or ctx.get("search")
+    # a fixed scenario first: one slot; the message that waits in the runner's hand for it has a time-to-live that runs out
+    # meanwhile; two more messages behind it
+    fixed = {"jobs": [{"id": "h0", "name": "act0", "queue": "default", "retries": 0, "timeout": 10 * S, "plan": [{"k": "ret", "dur": 1_500_000}], "store_result": False},
+                      {"id": "h1", "name": "act0", "queue": "default", "retries": 0, "timeout": 10 * S, "ttl": 1 * S, "plan": [{"k": "ret", "dur": 0}], "store_result": False},
+                      {"id": "h2", "name": "act0", "queue": "default", "retries": 0, "timeout": 10 * S, "plan": [{"k": "ret", "dur": 100_000}], "store_result": False},
+                      {"id": "h3", "name": "act0", "queue": "default", "retries": 0, "timeout": 10 * S, "plan": [{"k": "ret", "dur": 0}], "store_result": False}],
+             "actors": {"act0": "default"}, "tasks_limit": 1, "converter": "basic", "policy": {"kind": "const", "us": 0}, "profile": "fixed",
+             "arrivals": "before", "overrun": False, "store_mode": "ok", "store_fail_all": False, "results_broker": True,
+             "consumer_latency_us": 0, "horizon_s": 12.0}
+    check(vtime.run(lambda loop: scenario(fixed), budget=80_000_000), model, res, "fixed/ttl-runs-out-while-waiting-for-a-slot")
     for i in range(150 if deep else 24):
         rng = Rng(seed, f"c09/{i}")
         sc = make_scenario(rng, deep)
